@@ -311,11 +311,12 @@ def h_time_micros(m):
 def _mk_dt(m, aware):
     wall = _sym_int(m, "wall_us", 0, MAX_WALL - 1)
     if aware:
-        offm = _sym_int(m, "offset_min", -1439, 1439)
+        # UTC offset: any number of microseconds strictly between -24h and +24h (datetime.timezone's full domain)
+        offu = _sym_int(m, "offset_us", -(86400 * 10**6) + 1, 86400 * 10**6 - 1)
         if m.sym:
-            return tm.SDatetime(wall, offm * (60 * 10**6)), wall, offm
+            return tm.SDatetime(wall, offu), wall, offu
         d = dt.datetime.min + dt.timedelta(microseconds=wall)
-        return d.replace(tzinfo=dt.timezone(dt.timedelta(minutes=offm))), wall, offm
+        return d.replace(tzinfo=dt.timezone(dt.timedelta(microseconds=offu))), wall, offu
     if m.sym:
         return tm.SDatetime(wall, None), wall, None
     return dt.datetime.min + dt.timedelta(microseconds=wall), wall, None
@@ -335,7 +336,7 @@ def _ts(m, unit, local, aware):
     nm = ("local_" if local else "") + ("timestamp_millis" if unit == 1000 else "timestamp_micros")
     ob = nm + (".aware" if aware else ".naive")
     d, wall, offm = _mk_dt(m, aware)
-    rel = zi(wall) - EPOCH_WALL - (zi(offm) * 60 * 10**6 if aware else 0)  # microseconds from the (UTC) epoch
+    rel = zi(wall) - EPOCH_WALL - (zi(offm) if aware else 0)  # microseconds from the (UTC) epoch
     # the UTC instant must itself be a representable datetime, else it cannot be returned
     m.assume(z3.And(rel + EPOCH_WALL >= 0, rel + EPOCH_WALL < MAX_WALL))
     prep = getattr(m.mod(LW), "prepare_" + nm)
@@ -620,11 +621,11 @@ def run(run, tier):
         S(h_decimal_roundtrip, ["decimal.roundtrip"], key=_dkey, max_paths=60000),
     ])
     run.bounds += ["dates: every ordinal 1..3652059 (0001-01-01..9999-12-31); times: every (h, m, s, microsecond); datetimes: every "
-                   "microsecond of years 1..9999 with every UTC offset of whole minutes in (-24h, 24h) whose UTC instant is itself a "
+                   "microsecond of years 1..9999 with every UTC offset of whole microseconds in (-24h, 24h) whose UTC instant is itself a "
                    "datetime; naive datetimes under TZ=UTC; all as z3 integers, no sampling",
                    f"decimals: <= {DEC['max_digits']} digits, exponent in [-{DEC['max_exp']}, {DEC['max_exp']}], precision <= "
                    f"{DEC['max_prec']}, 0 <= scale <= precision, fixed size <= {DEC['max_size']}; every digit value and sign"]
-    run.outside += ["Windows branches (is_windows)", "dates given as ISO strings (date.fromisoformat)", "sub-minute UTC offsets",
+    run.outside += ["Windows branches (is_windows)", "dates given as ISO strings (date.fromisoformat)",
                     "decimals beyond the stated digit/size bounds", "timestamps whose UTC instant lies outside years 1..9999"]
     run.assumptions += [f"float-division lemmas used: {sorted(tm.Ratio.USED)}",
                         "datetime/timedelta/time/date/Decimal/UUID objects are modelled by their documented contracts "
